@@ -31,12 +31,14 @@ var bases = []string{
 	"http://example.com/?", "http://example.com/?a=1#", "file:///etc/hosts", "http://example.com:65535/", "http://a/b/c/d;p?q", "http://h/?a=%zz&&b",
 }
 var searches = []string{"", "?", "a=1", "?a=1", "??a=1", "a=1&b=2", "x y", "é=ü", "a=%zz", "a=b#c", "&&", "=", "?=", "a+b=c+d", "%41=%42", "q=#", "?a=1&a=2", "k", "a=1&&b=2&"}
-var hosts = []string{"example.org", "EXAMPLE.org", "example.org:80", "example.org:443", "example.org:8080", "example.org:", "x/y", "a@b", "x?y", "x#y", "", "[::1]", "[::1]:80", "[::1]:9",
+var hosts = []string{"xn--zz", "xn--zz:81", "XN--0:80", "example.org", "EXAMPLE.org", "example.org:80", "example.org:443", "example.org:8080", "example.org:", "x/y", "a@b", "x?y", "x#y", "", "[::1]", "[::1]:80", "[::1]:9",
 	"h:65536", "h:0", "h:080", "h:99999999999999999999", "é.com", "é.com:21", "a b", "a:b", "h:8x", "1.2.3.4", "1.2.3.4:21", "xn--", "a..b", "%41"}
 var hostnames = []string{"example.net", "UP.net", "", "x/y", "a:1", "é.org", "[::1]", "a b", "h", "1.2.3.4", "a@b", "x?y",
-	"[::2]:82", "[::1]:443", "[::1]:80", "[::3]", "[::1", "É.Org", "h:", ":80"}
+	"[::2]:82", "[::1]:443", "[::1]:80", "[::3]", "[::1", "É.Org", "h:", ":80",
+	// labels that look like punycode and are not: the conversion fails after the value has been looked at
+	"xn--zz", "xn--0", "XN--ZZ", "a.xn--zz.b"}
 var ports = []string{"", "80", "443", "21", "8080", "0", "65535", "65536", "-1", "8x", "x8", " 9", "080", "99999", "1e3", "21.5"}
-var protocols = []string{"http", "https", "http:", "HTTPS:", "ws", "wss:", "ftp", "file", "foo", "foo:", "bar:baz", "", ":", "h ttp", "1x"}
+var protocols = []string{"http", "https", "http:", "HTTPS:", "ws", "wss:", "ftp", "file", "foo", "foo:", "bar:baz", "", ":", "h ttp", "1x", "/", "//", "/a/../b", "a+b.c-d", "-x", "é"}
 var hashes = []string{"", "#", "x", "#x", "##x", "a b", "é", "#a?b"}
 var paths = []string{"", "/", "/a/b", "a/b", "/a/../b/", "/a b", "/é", "//x", "/a/./b/.", "/%2e%2e/x", "?x", "#y"}
 var hrefs = []string{"http://other.org/q?z=9", "https://h:443/?a=1&a=2#f", "http://h:80", "nonsense", "", "//h/p", "ws://W:80/x?", "http://[::1]:80/?k", "foo:bar?x=1", "http://h/?a=%zz", "http://:80/", "http://"}
